@@ -156,7 +156,12 @@ func H16b() {
 		u := MesgNum(vU16())
 		vAssume(!knownMsgNums[u] && u != MesgNumInvalid)
 		kg[i], kn[i], ku[i] = g, num, u
-		s = append(s, 0x40, 0, 0, byte(g), byte(g>>8), 1, num, 1, 0x0D, 0x00, 0x5A)
+		if vBool() {
+			s = append(s, 0x40, 0, 0, byte(g), byte(g>>8), 1, num, 1, 0x0D, 0x00, 0x5A)
+		} else {
+			// the unlisted field declared as a zero-length string: the record carries it with no bytes
+			s = append(s, 0x40, 0, 0, byte(g), byte(g>>8), 1, num, 0, 0x07, 0x00)
+		}
 		s = append(s, 0x41, 0, 0, byte(u), byte(u>>8), 0, 0x01)
 	}
 	var buf [64]byte
